@@ -122,8 +122,25 @@ def handle (op : String) (a : Json) : Option R :=
         | none => pure (centerOfMass arr 0)
       if c.length ≠ d then throw "BadArg:shape"
       let M := rigidMatrix (matOfRows d rows) (some (vecOfList d t)) (some (vecOfList d c))
-      let srcs := (allIdx sh).map (fun idx => listOfVec (affineSrc M (vecOfList d (idx.map (fun (z : Nat) => ((z : Int) : Rat))))))
-      pure (Json.mkObj [("out", jRats (srcs.map (linInterp arr))), ("src", jRatss srcs), ("c", jRats c)])
+      let srcs := (allIdx sh).map (fun idx => listOfVec (affineSrc M (vecOfList d (ratIdx idx))))
+      -- `rigidLinear arr rinv t c o = linInterp arr (affineSrc (rigidMatrix rinv t c) o)`: the function of the order-1 theorems
+      let out := (allIdx sh).map (fun idx => rigidLinear arr (matOfRows d rows) (vecOfList d t) (vecOfList d c) (vecOfList d (ratIdx idx)))
+      pure (Json.mkObj [("out", jRats out), ("src", jRatss srcs), ("c", jRats c)])
+  | "c06.lineararr" => some do
+      -- whole-array order-1 transform with its mass and first moments (`rigidLinearArr`, `mass`, `moment`)
+      let sh ← getNatList a "shape"
+      let d := sh.length
+      let data ← getIntList a "data"
+      let rows ← getRatRows a "rinv"
+      let t ← getRatList a "t"
+      let c ← getRatList a "c"
+      if data.length ≠ prodL sh ∨ !squareOK d rows ∨ t.length ≠ d ∨ c.length ≠ d then throw "BadArg:shape"
+      let arr : Arr Rat := ⟨sh, (data.map (fun (z : Int) => (z : Rat))).toArray⟩
+      let out := rigidLinearArr arr (matOfRows d rows) (vecOfList d t) (vecOfList d c)
+      let axes := List.range d
+      pure (Json.mkObj [("out", jRats out.toList),
+                        ("mass_in", jRat (mass arr)), ("mass_out", jRat (mass out)),
+                        ("moment_in", jRats (axes.map (moment arr))), ("moment_out", jRats (axes.map (moment out)))])
   | "c06.com" => some do
       let sh ← getNatList a "shape"
       let data ← getIntList a "data"
